@@ -486,4 +486,42 @@ class ErrorScale(Sub):
         return out
 
 
-SUBS = [Propagate(), LeftWins(), Literals(), Controls(), Trees(), ErrorScale()]
+class ListenerFunctions(Sub):
+    name = 'c08.listener_functions'
+    rule = ('a function that the host implements through a callFunction listener and that fails - the listener raises one of the 8 '
+            'error values (the shared object or one of its own making) or an ordinary exception - is a function call that produced an '
+            'error: IFERROR / ISERROR / ISNA / ERROR.TYPE observe it, operators hand it on; non-trivial = all')
+    min_cases = 16
+    min_nontrivial = 16
+
+    def cases(self, tier, unit):
+        for i in range(len(CODES8)):
+            for how in ('shared', 'fresh'):
+                yield [i, how]
+        yield [0, 'exception']
+
+    def check(self, env, case):
+        i, how = case
+        code = CODES8[i]
+        env.nt()
+        p = env.new_parser()
+
+        def listener(name, args, setter):
+            if name == 'HOSTFN':
+                if how == 'exception':
+                    raise KeyError('no such row')
+                raise (env.dec({'$err': code}) if how == 'shared' else env.err.XLError(code))
+        p.on('callFunction', listener)
+        want_code = '#ERROR!' if how == 'exception' else code
+        probes = [('IFERROR(HOSTFN(1),5)', ['v', 5]), ('ISERROR(HOSTFN(1))', ['v', True]), ('ISNA(HOSTFN(1))', ['v', want_code == '#N/A']),
+                  ('HOSTFN(1)+1', ['e', want_code]), ('IF(ISERROR(HOSTFN(1)&"x"),"trapped","no")', ['v', 'trapped']), ('IFERROR(1,HOSTFN(1))', ['v', 1])]
+        for f, want in probes:
+            env.evals += 1
+            o = env.out(p.parse(f))
+            if o != want:
+                return fail('%s with a callFunction listener that raises %s for HOSTFN gives %r, expected %r' % (
+                    f, 'KeyError' if how == 'exception' else '%s (%s object)' % (code, how), o, want), want, o)
+        return None
+
+
+SUBS = [ListenerFunctions(), Propagate(), LeftWins(), Literals(), Controls(), Trees(), ErrorScale()]
